@@ -288,11 +288,17 @@ pub fn delivered_rids(rec: &RunRecord) -> BTreeSet<u64> {
 /// earlier request for it was already delivered *before* that Start, or two requests overlapping in
 /// flight. Returns the offending argument.
 pub fn duplicate_request(rec: &RunRecord, kind: Kind, ignore_in_sort: bool) -> Option<u32> {
-    // state per arg: 0 = none, 1 = in flight, 2 = delivered
+    // state per arg: 0 = none, 1 = in flight, 2 = delivered (or abandoned by the solver itself)
     let mut state: BTreeMap<u32, u8> = BTreeMap::new();
     let mut rid_arg: BTreeMap<u64, u32> = BTreeMap::new();
+    // A request may legitimately be re-issued only if it was dropped in flight because the solve was
+    // cancelled (every pending request is dropped then). A solver that drops its own request and asks again
+    // has asked twice.
+    let mut cancelled = false;
     for e in &rec.log {
         match e {
+            Ev::SolveBegin(_) => cancelled = false,
+            Ev::CancelPoll { fired: true, .. } => cancelled = true,
             Ev::Start {
                 rid,
                 kind: k,
@@ -318,7 +324,7 @@ pub fn duplicate_request(rec: &RunRecord, kind: Kind, ignore_in_sort: bool) -> O
             Ev::Dropped { rid } => {
                 if let Some(a) = rid_arg.get(rid) {
                     if state.get(a) == Some(&1) {
-                        state.insert(*a, 0);
+                        state.insert(*a, if cancelled { 0 } else { 2 });
                     }
                 }
             }
